@@ -566,3 +566,57 @@ func FuzzTextLine(f *testing.F) {
 		}
 	})
 }
+
+// TestSameAttrUsedAgain: as in C01 - an attribute value built once and logged again and again; a deferred value inside
+// it is resolved anew for every record.
+func TestSameAttrUsedAgain(t *testing.T) {
+	rt.Check(t, 400, 60000, func(t *rapid.T) {
+		ra := lm.GenReusedAttr().Draw(t, "attr")
+		sink := &lm.Sink{}
+		h := logger.NewTextHandler(sink, logger.NewOptions(logger.LevelDebug, false, rapid.Bool().Draw(t, "addSource")))
+		l := logger.New(h)
+		uses := rapid.IntRange(2, 5).Draw(t, "uses")
+		key := strings.Join(ra.Path, ".")
+		var hows []int
+		for i := 1; i <= uses; i++ {
+			how := rapid.IntRange(0, 3).Draw(t, "how")
+			hows = append(hows, how)
+			sink.Reset()
+			switch how {
+			case 0:
+				l.Log(context.Background(), logger.LevelInfo, "m", ra.Attr)
+			case 1:
+				pc, _, _ := lm.CallerPC()
+				r := slog.NewRecord(time.Now(), logger.LevelWarn, "m", pc)
+				r.AddAttrs(ra.Attr)
+				if err := h.Handle(context.Background(), r); err != nil {
+					t.Fatalf("Handle returned %v", err)
+				}
+			case 2:
+				l.With(ra.Attr).Info("m")
+			case 3:
+				l.Error("m", ra.Attr)
+			}
+			if len(sink.Writes) != 1 {
+				t.Fatalf("use #%d: %d Write calls for one record", i, len(sink.Writes))
+			}
+			toks, err := lm.Tokenize(sink.Writes[0])
+			if err != nil {
+				t.Fatalf("use #%d: line does not split into tokens: %v: %s", i, err, sink.Writes[0])
+			}
+			got, n := "", 0
+			for _, tk := range toks {
+				if tk.Key == key {
+					got, n = tk.Val, n+1
+				}
+			}
+			if n != 1 || got != fmt.Sprint(i) {
+				t.Fatalf("use #%d of the same attribute (%s; entry points so far %v): %d token(s) keyed %s, value %q, want one with %d - the value of the resolution made for this record\n  line: %s", i, ra.Desc, hows, n, key, got, i, sink.Writes[0])
+			}
+		}
+		ev.Label("same_attribute_value_logged_again")
+		ev.Case(true, ev.Hash("reuse", ra.Desc, fmt.Sprint(hows)), func() string {
+			return fmt.Sprintf("one attribute value (%s) used %d times through entry points %v", ra.Desc, uses, hows)
+		})
+	})
+}
